@@ -565,6 +565,12 @@ impl Stream for SNode {
             SNode::Inner(n) => Pin::new(n).poll_next(cx),
         }
     }
+    fn size_hint(&self) -> (usize, Option<usize>) {
+        match self {
+            SNode::Leaf(l) => l.size_hint(),
+            SNode::Inner(_) => (0, None),
+        }
+    }
 }
 
 // ---------------------------------------------------------------------------------------
